@@ -23,6 +23,7 @@ func C16(r *core.Report) {
 		"R6 in the split-car callback the decision to start a new piece is taken before the block's objects are written, the writing closures cannot reach it (a block with its objects lands in one piece), and the objects are written in the order children-then-block that they were collected in. " +
 		"Not decided: concrete byte equality, size arithmetic, what carlet metadata from other tools contains."
 	c16Accounting(r)
+	checkUvarintLenIdiom(r, "C16.R1", "accum", "main")
 	c16Pairing(r)
 	c16CompletionOrder(r)
 	c16PrefixSums(r)
